@@ -7,6 +7,7 @@ CONSTANTS
   NVK = 1
   Kinds = {"val", "del"}
   L0L0KeepsTombstones = TRUE
+  BaseSkip = "none"
   MaxId = 5
   InstallOrder = "code"
 INVARIANTS ReadCorrect
